@@ -57,42 +57,54 @@ def effective(c: dict[str, Any]) -> bool:  # only used to count non-trivial case
 
 
 # --------------------------------------------------------------------------- TLC: design + case export
-def model_check(rep: Report) -> list[dict[str, Any]]:
-    jobs: dict[str, Any] = {}
-    with ThreadPoolExecutor(max_workers=6) as ex:
-        jobs["design"] = ex.submit(tlc.run_tlc, "MC_RunLifecycle", "MC_RunLifecycle_design.cfg", workers=4,
-                                   coverage=True, timeout=900, parse_prints=False)
-        for n in NEG_CONTROLS:
-            jobs[n] = ex.submit(tlc.run_tlc, "MC_RunLifecycle", f"MC_RunLifecycle_{n}.cfg", workers=2,
-                                timeout=900, parse_prints=False)
-        jobs["export"] = ex.submit(tlc.run_tlc, "MC_RunLifecycle", "MC_RunLifecycle_export.cfg", workers=1,
-                                   timeout=900)
-        res = {k: f.result() for k, f in jobs.items()}
-    d = res["design"]
-    rep.add_tlc(d, "MC_RunLifecycle_design")
-    if not d.ok:
-        rep.violate(f"design/{d.violated}", {"where": "RunLifecycle design layer"}, {"cex": d.cex[-3:], "out": d.out[-1500:]})
-    never = [a for a in ACTIONS if d.coverage.get(a, (0, 0))[0] == 0]
-    if never:
-        raise Machinery(f"design actions never taken (vacuous model): {never}")
-    rep.extra["design_action_coverage"] = {a: d.coverage[a][0] for a in ACTIONS}
-    for n, dev in NEG_CONTROLS.items():
-        r = res[n]
-        rep.add_tlc(r, f"MC_RunLifecycle_{n} (negative control)")
-        if r.violated is None or not r.violated.startswith("X"):
-            raise Machinery(f"negative control {n} ({DEV_NAMES[dev]}) did not violate a contract clause "
-                            f"(got {r.violated}): contract is vacuous")
-        rep.extra.setdefault("negative_controls", {})[DEV_NAMES[dev]] = r.violated
-    e = res["export"]
-    rep.add_tlc(e, "MC_RunLifecycle_export")
-    cases = []
-    for p in e.prints:
-        if isinstance(p, list) and len(p) == 3 and p[0] == "C":
-            cases.append({"c": p[1], "expect": p[2]})
-    cases.sort(key=lambda x: case_key(x["c"]))
-    if len(cases) != e.distinct // 16 or len(cases) < 1000:
-        raise Machinery(f"case export incomplete: {len(cases)} cases for {e.distinct} states\n{e.out[-1500:]}")
-    return cases
+class ModelCheck:
+    """The TLC runs of the design layer.  Only the case export is needed before the real code can be
+    driven; the exhaustive design check and the negative controls run concurrently with the executions."""
+
+    def __init__(self) -> None:
+        self.pool = ThreadPoolExecutor(max_workers=6)
+        self.export = self.pool.submit(tlc.run_tlc, "MC_RunLifecycle", "MC_RunLifecycle_export.cfg", workers=1,
+                                       timeout=900)
+        self.design = self.pool.submit(tlc.run_tlc, "MC_RunLifecycle", "MC_RunLifecycle_design.cfg", workers=4,
+                                       coverage=True, timeout=900, parse_prints=False)
+        self.neg = {n: self.pool.submit(tlc.run_tlc, "MC_RunLifecycle", f"MC_RunLifecycle_{n}.cfg", workers=2,
+                                        timeout=900, parse_prints=False) for n in NEG_CONTROLS}
+
+    def cases(self, rep: Report) -> list[dict[str, Any]]:
+        e = self.export.result()
+        rep.add_tlc(e, "MC_RunLifecycle_export")
+        cases = []
+        for p in e.prints:
+            if isinstance(p, list) and len(p) == 3 and p[0] == "C":
+                cases.append({"c": p[1], "expect": p[2]})
+        cases.sort(key=lambda x: case_key(x["c"]))
+        if len(cases) != e.distinct or len(cases) < 1000 or len({case_key(x["c"]) for x in cases}) != len(cases):
+            raise Machinery(f"case export incomplete: {len(cases)} cases for {e.distinct} states\n{e.out[-1500:]}")
+        return cases
+
+    def finish(self, rep: Report, ncases: int) -> None:
+        d = self.design.result()
+        rep.add_tlc(d, "MC_RunLifecycle_design")
+        if not d.ok:
+            rep.violate(f"design/{d.violated}", {"where": "RunLifecycle design layer"},
+                        {"cex": d.cex[-3:], "out": d.out[-1500:]})
+        never = [a for a in ACTIONS if d.coverage.get(a, (0, 0))[0] == 0]
+        if never:
+            raise Machinery(f"design actions never taken (vacuous model): {never}")
+        if d.ok and d.distinct != ncases * (len(ACTIONS) + 1):
+            raise Machinery(f"design run covered {d.distinct} states, expected {ncases} cases x {len(ACTIONS) + 1}")
+        rep.extra["design_action_coverage"] = {a: d.coverage[a][0] for a in ACTIONS}
+        rep.extra["design_actions_all_taken"] = True
+        for n, dev in NEG_CONTROLS.items():
+            r = self.neg[n].result()
+            rep.add_tlc(r, f"MC_RunLifecycle_{n} (negative control)")
+            if r.violated is None or not r.violated.startswith("X"):
+                raise Machinery(f"negative control {n} ({DEV_NAMES[dev]}) did not violate a contract clause "
+                                f"(got {r.violated}): contract is vacuous")
+            rep.extra.setdefault("negative_controls", {})[DEV_NAMES[dev]] = r.violated
+
+    def close(self) -> None:
+        self.pool.shutdown(wait=False, cancel_futures=True)
 
 
 # --------------------------------------------------------------------------- executing cases
@@ -267,11 +279,12 @@ def select_cases(cases: list[dict[str, Any]], tier: str, seed: int) -> tuple[lis
     return a, b
 
 
-def sig_for(c: dict[str, Any], label: str, v: dict[str, Any], k: int) -> dict[str, Any]:
+def sigs_for(c: dict[str, Any], v: dict[str, Any], k: int) -> list[dict[str, Any]]:
+    """One signature per known deviation that TLC holds responsible for broken clause k of this trace."""
     if v["explain"] == ["none"]:
-        return {"explained_by": "none", "kind": c["kind"], "point": c["point"], "how": c["how"], "where": c["where"]}
+        return [{"explained_by": "none", "kind": c["kind"], "point": c["point"], "how": c["how"], "where": c["where"]}]
     who = v["blame"][k] if v["blame"][k] else v["explain"]
-    return {"explained_by": "+".join(DEV_NAMES[d] for d in who)}
+    return [{"explained_by": DEV_NAMES[d]} for d in who]
 
 
 def process(rep: Report, traces: list[dict[str, Any]], verdicts: dict[int, dict[str, Any]]) -> None:
@@ -287,10 +300,11 @@ def process(rep: Report, traces: list[dict[str, Any]], verdicts: dict[int, dict[
         obs = {k: t["o"][k] for k in OBS_KEYS}
         if v["verdict"] != "ok":
             for k, lab in enumerate(v["labels"]):
-                sig = sig_for(c, lab, v, k)
-                devhits[sig["explained_by"]] = devhits.get(sig["explained_by"], 0) + 1
-                rep.violate(lab, sig, {"mode": mode, "case": c, "observed": obs, "expected_by_design": t.get("expect"),
-                                       "all_broken": v["labels"], "explain": v["explain"], "raw": t["o"].get("_raw")})
+                for sig in sigs_for(c, v, k):
+                    devhits[sig["explained_by"]] = devhits.get(sig["explained_by"], 0) + 1
+                    rep.violate(lab, sig, {"mode": mode, "case": c, "observed": obs,
+                                           "expected_by_design": t.get("expect"), "all_broken": v["labels"],
+                                           "explain": v["explain"], "raw": t["o"].get("_raw")})
         elif v["explain"] != []:
             rep.drift.append({"mode": mode, "case": c, "observed": obs, "design": t.get("expect"),
                               "reproduced_by_deviations": v["explain"]})
@@ -303,52 +317,47 @@ def process(rep: Report, traces: list[dict[str, Any]], verdicts: dict[int, dict[
     rep.extra["drift_count"] = len(rep.drift)
 
 
-def selftest(rep: Report, bench: Bench, traces: list[dict[str, Any]], verdicts: dict[int, dict[str, Any]]) -> None:
-    """Binding self-test: corrupted copies of accepted traces and one mutant environment must be rejected."""
-    ok = [t for t in traces if verdicts[t["id"]]["verdict"] == "ok" and t["c"]["art"] and t["c"]["db"] and t["c"]["lock"]
-          and t["c"]["hooks"] and t["o"]["db"]["hasEnd"] and t["o"]["post"]["ran"] == 1]
-    if not ok:
-        raise Machinery("no accepted trace with all resources on to run the binding self-test on")
-    base = ok[0]
+SELF_BASE = 900000
+MUTANT_ID = 999999
+MUTANT_CASE = {"kind": "Script", "art": True, "db": True, "lock": True, "hooks": True, "point": "Main", "how": "Return",
+               "n": 0, "where": "pre"}
+
+
+def corruptions(base: dict[str, Any]) -> list[tuple[dict[str, Any], str]]:
+    """Binding self-test, part 1: copies of one recorded trace with one field corrupted each, and the
+    clause TLC has to name for it."""
 
     def mut(path: list[str], val: Any) -> dict[str, Any]:
-        t = json.loads(json.dumps({"id": 0, "c": base["c"], "o": {k: base["o"][k] for k in OBS_KEYS}}))
+        t = json.loads(json.dumps({"c": base["c"], "o": {k: base["o"][k] for k in OBS_KEYS}}))
         x = t["o"]
         for p in path[:-1]:
             x = x[p]
         x[path[-1]] = val
         return t
 
+    o = base["o"]
     muts = [
-        (mut(["exit"], (base["o"]["exit"] + 1) % 256), "X1/exit-code-follows-mapping"),
-        (mut(["meta", "exit"], (base["o"]["meta"]["exit"] + 1) % 256), "X2/meta-exit-code=process"),
+        (mut(["exit"], (o["exit"] + 1) % 256), "X1/exit-code-follows-mapping"),
+        (mut(["meta", "exit"], (o["meta"]["exit"] + 1) % 256), "X2/meta-exit-code=process"),
         (mut(["meta", "configOk"], False), "X2/meta-config-recreates-run"),
         (mut(["log", "complete"], False), "X3/log-closed"),
-        (mut(["log", "markers"], base["o"]["log"]["markers"][:-1]), "X3/log-fully-readable"),
+        (mut(["log", "markers"], o["log"]["markers"][:-1]), "X3/log-fully-readable"),
         (mut(["lockFree"], False), "X4/lock-released"),
         (mut(["db", "hasEnd"], False), "X5/db-end-time-set"),
-        (mut(["post", "exit"], (base["o"]["post"]["exit"] + 1) % 256), "X6/post-hook-sees-exit-code"),
+        (mut(["post", "exit"], (o["post"]["exit"] + 1) % 256), "X6/post-hook-sees-exit-code"),
     ]
     for k, (m, _) in enumerate(muts):
-        m["id"] = k
-    v, res = validate([m for m, _ in muts])
-    for r in res:
-        rep.add_tlc(r, "Trace_RunLifecycle self-test")
-    got = [v[k]["verdict"] for k in range(len(muts))]
-    want = [w for _, w in muts]
-    if got != want:
-        raise Machinery(f"binding self-test: corrupted traces not rejected as expected: got {got}, want {want}")
-    # mutant environment: a post-hook that deletes META.json (the harness' own hook script replaced)
-    c = {"kind": "Script", "art": True, "db": True, "lock": True, "hooks": True, "point": "Main", "how": "Return",
-         "n": 0, "where": "pre"}
-    mcase = {"id": 999999, "c": c, "mutant": "post-hook-removes-meta"}
-    o = run_inproc_shard(bench, 9999, [mcase])[0]["o"]
-    v2, res2 = validate([{"id": 999999, "c": c, "o": o}])
-    for r in res2:
-        rep.add_tlc(r, "Trace_RunLifecycle mutant")
-    if v2[999999]["verdict"] != "X2/meta-json-written":
-        raise Machinery(f"binding self-test: mutant environment (META.json removed) got verdict {v2[999999]}")
-    rep.extra["binding_selftest"] = {"corrupted_rejected": got, "mutant_env": v2[999999]["verdict"]}
+        m["id"] = SELF_BASE + k
+    return muts
+
+
+def pick_base(traces: list[dict[str, Any]]) -> dict[str, Any]:
+    for t in traces:
+        c = t["c"]
+        if (c["kind"] == "Script" and c["how"] == "Return" and c["art"] and c["db"] and c["lock"] and c["hooks"]
+                and t["id"] < CLI_BASE):
+            return t
+    raise Machinery("no trace of the plain all-resources-on run to build the binding self-test from")
 
 
 def run(tier: str, seed: int) -> Report:
@@ -372,33 +381,55 @@ def run(tier: str, seed: int) -> Report:
         "exit codes where the statement is silent (plain script raising ConnectionError/UDSException: 70 or 74; DB "
         "open failure: any non-zero; failing run_meta update: 0 or a sysexits code) are counted as unspecified",
     ]
-    cases = model_check(rep)
-    rep.extra["tlc_cases"] = len(cases)
-    inproc, cli = select_cases(cases, tier, seed)
-    bench = Bench()
+    mc = ModelCheck()
+    bench = None
     try:
+        cases = mc.cases(rep)
+        rep.extra["tlc_cases"] = len(cases)
+        inproc, cli = select_cases(cases, tier, seed)
+        bench = Bench()
         t0 = time.time()
-        obs = execute(bench, inproc, cli)
+        # the mutant environment of the binding self-test rides along with the in-process cases
+        obs = execute(bench, inproc + [{"id": MUTANT_ID, "c": MUTANT_CASE, "mutant": "post-hook-removes-meta"}], cli)
         rep.extra["execution_wall_s"] = round(time.time() - t0, 1)
         traces = [{"id": cs["id"], "c": cs["c"], "o": obs[cs["id"]], "expect": cs["expect"]} for cs in inproc + cli]
-        verdicts, results = validate(traces)
+        base = pick_base(traces)
+        muts = corruptions(base)
+        extra = [m for m, _ in muts] + [{"id": MUTANT_ID, "c": MUTANT_CASE, "o": obs[MUTANT_ID]}]
+        verdicts, results = validate(traces + extra)
         for r in results:
             rep.add_tlc(r, "Trace_RunLifecycle batch")
+        # ---- binding self-test
+        if verdicts[base["id"]]["verdict"] != "ok":
+            raise Machinery(f"the plain all-resources-on run is not accepted ({verdicts[base['id']]}): "
+                            "cannot run the binding self-test")
+        got = [verdicts[m["id"]]["verdict"] for m, _ in muts]
+        want = [w for _, w in muts]
+        if got != want:
+            raise Machinery(f"binding self-test: corrupted traces not rejected as expected: got {got}, want {want}")
+        if verdicts[MUTANT_ID]["verdict"] != "X2/meta-json-written":
+            raise Machinery(f"binding self-test: mutant environment (post-hook deletes META.json) got "
+                            f"{verdicts[MUTANT_ID]}")
+        rep.extra["binding_selftest"] = {"corrupted_rejected": got, "mutant_env": verdicts[MUTANT_ID]["verdict"]}
+        # ---- verdicts of the real executions
         rep.traces = len(traces)
-        rep.evaluations = len(traces)
+        rep.evaluations = len(traces) + len(extra)
         process(rep, traces, verdicts)
         for t in (traces[0], traces[len(traces) // 3], traces[-1]):
             rep.sample({"case": t["c"], "observed": {k: t["o"][k] for k in OBS_KEYS}, "verdict": verdicts[t["id"]]})
-        selftest(rep, bench, traces, verdicts)
+        mc.finish(rep, len(cases))
     finally:
-        bench.close()
+        mc.close()
+        if bench is not None:
+            bench.close()
     rep.extra["executed"] = {"inproc": len(inproc), "cli": len(cli),
                              "cli_sigint": sum(1 for cs in cli if cs["c"]["how"] == "CtrlC")}
     rep.exhaustive = tier == "thorough"
     rep.extra["exhaustive_space"] = (
         "thorough: all 1696 TLC cases in cli mode (incl. all 208 real-SIGINT cases) and all 1488 non-SIGINT cases "
-        "again in inproc mode; quick: Script kind x all 16 resource sets, scanner kinds x 7 resource sets (inproc), "
+        "again in inproc mode; quick: Script kind x all 16 resource sets, scanner kinds x 8 resource sets (inproc), "
         "all SIGINT cases with every resource on + seeded samples (cli)")
+    rep.extra["deviations_modelled"] = DEV_NAMES
     return rep
 
 
